@@ -127,12 +127,18 @@ func (h *Handler) delete(lease *Lease) {
 	delete(h.table, string(lease.ClientID))
 }
 
+// reserved is true for the addresses that are never handed out: the router's and our own. The session normally
+// tracks both, but its entry for a router that stays silent is purged like any other host's.
+func (h *Handler) reserved(ip netip.Addr) bool {
+	return ip == h.session.NICInfo.RouterAddr4.IP || ip == h.session.NICInfo.HostAddr4.IP
+}
+
 // allocIPOffer allocates a free IP to the lease entry
 func (h *Handler) allocIPOffer(lease *Lease, reqIP netip.Addr) error {
 	// the requested address is honoured only if it is a usable host address of the client's subnet
 	if reqIP.Is4() && lease.subnet.LAN.Contains(reqIP) && reqIP != lease.subnet.LAN.Addr() && reqIP != lease.subnet.broadcast {
 		if l := h.findByIP(reqIP); l == nil || l.State == StateFree || bytes.Equal(l.ClientID, lease.ClientID) {
-			if h.session.FindIP(reqIP) == nil {
+			if h.session.FindIP(reqIP) == nil && !h.reserved(reqIP) {
 				lease.IPOffer = reqIP
 				if Logger.IsInfo() {
 					Logger.Msg("offer").IP("ip", lease.IPOffer).Write()
@@ -147,7 +153,7 @@ func (h *Handler) allocIPOffer(lease *Lease, reqIP netip.Addr) error {
 	for lease.subnet.nextIP.Less(lease.subnet.broadcast) {
 		// for tmpIP.IsValid() {
 		if l := h.findByIP(lease.subnet.nextIP); l == nil || l.State == StateFree {
-			if h.session.FindIP(lease.subnet.nextIP) == nil {
+			if h.session.FindIP(lease.subnet.nextIP) == nil && !h.reserved(lease.subnet.nextIP) {
 				ip = lease.subnet.nextIP
 				lease.subnet.nextIP = lease.subnet.nextIP.Next()
 				break
@@ -164,7 +170,7 @@ func (h *Handler) allocIPOffer(lease *Lease, reqIP netip.Addr) error {
 	lease.subnet.nextIP = lease.subnet.FirstIP
 	for lease.subnet.nextIP.Less(lease.subnet.broadcast) {
 		if l := h.findByIP(lease.subnet.nextIP); l == nil || l.State == StateFree {
-			if h.session.FindIP(lease.subnet.nextIP) == nil {
+			if h.session.FindIP(lease.subnet.nextIP) == nil && !h.reserved(lease.subnet.nextIP) {
 				ip = lease.subnet.nextIP
 				lease.subnet.nextIP = lease.subnet.nextIP.Next()
 				break
